@@ -61,6 +61,7 @@ class Inliner:
         self.n = 0
         self.inlined = []        # names of callees inlined (evidence)
         self.flatten = True
+        self._subs = None
 
     # -- resolution ------------------------------------------------------------
     def _resolve(self, call):
@@ -75,6 +76,10 @@ class Inliner:
                 decos = [ast.unparse(d) for d in node.decorator_list]
                 if "property" in decos:
                     return None
+                if "staticmethod" not in decos and any(
+                        f.attr in getattr(k, "methods", {})
+                        for k in self._subclasses()):
+                    return None     # overridden below: dispatch is dynamic
                 if "staticmethod" in decos:
                     return ("func", f.attr, node)
                 first = node.args.args[0].arg if node.args.args else None
@@ -97,6 +102,14 @@ class Inliner:
             if isinstance(node, (ast.FunctionDef, ast.AsyncFunctionDef)):
                 return ("func", f.id, node)
         return None
+
+    def _subclasses(self):
+        if self._subs is None:
+            try:
+                self._subs = self.cls.subclasses()
+            except Exception:
+                self._subs = []
+        return self._subs
 
     @staticmethod
     def _is_gen(fn):
